@@ -7,7 +7,7 @@ import numpy as np
 import absval as A
 import blockrun as B
 
-RULE = ("(2 % of the blocks, 8 % in the thorough tier, sit on the scale axis: 255 ... 65537 frames or 15 ... 257 items) " 
+RULE = ("(2 % of the blocks, 4 % in the thorough tier, sit on the scale axis: 255 ... 65537 frames or 15 ... 257 items) " 
         "[plus tracks whose deciding (first) component is +-inf/NaN while the others are finite: the three sizes must still agree] [plus object life cycles as in C01: sized/encoded/decoded, edited in place, sized/encoded/decoded again] same generator as C01 (valid blocks of nine types, every nested item kind); per case three numbers for the block "
         "(nBytes, len(_write), tell() after _build on bytes+sentinel tail) and (nBytes, len) per nested item; thorough: the 8 "
         "blocks of the BTS capture against the jump-table sizes. non-trivial as C01")
@@ -43,7 +43,7 @@ def judge(ctx, kind, v, opts, r, m):
 
 
 def run(ctx):
-    n = ctx.n(1500, 40000)
+    n = ctx.n(1500, 12000)
     for c0 in range(0, n, 2500):
         cases = B.gen_cases(ctx, min(2500, n - c0), big=ctx.thorough)
         models = B.model_side(cases)
